@@ -255,3 +255,87 @@ func C16Csv2() {
 	}
 	zz.Fail("no fatal error within the read bound")
 }
+
+// C03Csv2Bytes: arbitrary bytes incl. quotes, delimiters, CR, LF through encoding/csv and the
+// csv2 reader with a look-ahead declaration: no panic, terminal result within the bound.
+func C03Csv2Bytes() {
+	zz.HangIsViolation()
+	L := zz.Param("L", 5)
+	in := zz.NondetBytes("in", L)
+	for _, b := range in {
+		zz.Assume(zz.ByteIn(b, "a|\"\n\rH "))
+	}
+	rows := 1 + zz.NondetChoice("rows", 3)
+	a := &RecordDecl{Name: "A", Rows: zzIntPtr(rows), Min: zzIntPtr(0), IsTarget: true,
+		Columns: []*ColumnDecl{{Name: "c", Index: zzIntPtr(2), LineIndex: zzIntPtr(rows)}}}
+	b := &RecordDecl{Name: "B", Header: zzStrPtr("^H"), Min: zzIntPtr(0),
+		Columns: []*ColumnDecl{{Name: "c", Index: zzIntPtr(1)}}}
+	decl := &FileDecl{Delimiter: "|", ReplaceDoubleQuotes: zz.NondetBool("replaceQuotes"), Records: []*RecordDecl{a, b}}
+	zz.Assume((&validateCtx{}).validateFileDecl(decl) == nil)
+	r := NewReader("t", &zzChunkReader{data: in, failAt: -1}, decl, nil)
+	for i := 0; i < L+3; i++ {
+		n, err := r.Read()
+		if err != nil {
+			zz.Cover("terminal")
+			zz.Assert(err == io.EOF || !r.IsContinuableError(err), "every reader error is terminal")
+			return
+		}
+		zz.Cover("record")
+		r.Release(n)
+	}
+	zz.Fail("no terminal result within L+3 reads")
+}
+
+// C06CsvQuoted: RFC-4180 fields: logical values made of plain bytes, the delimiter, quotes,
+// CR and LF, written fully quoted (quotes doubled), come back exactly (CR LF inside a quoted
+// field is normalised to LF by encoding/csv, as documented there).
+func C06CsvQuoted() {
+	NF := zz.Param("NF", 2)
+	FL := zz.Param("FL", 2)
+	nf := 1 + zz.NondetChoice("nfields", NF)
+	var vals [][]byte
+	var input []byte
+	for j := 0; j < nf; j++ {
+		v := zz.NondetBytes("v", FL)
+		for k, x := range v {
+			zz.Assume(zz.ByteIn(x, "a|\"\n\r "))
+			// a CR directly before LF inside a quoted field is dropped by encoding/csv: excluded
+			if k+1 < len(v) {
+				zz.Assume(!(x == '\r' && v[k+1] == '\n'))
+			}
+		}
+		// a trailing CR before the closing quote is kept; a lone CR at the very end of the
+		// record would be trimmed with the line end: excluded for the last field
+		if len(v) > 0 && j == nf-1 {
+			zz.Assume(v[len(v)-1] != '\r')
+		}
+		vals = append(vals, v)
+		if j > 0 {
+			input = append(input, '|')
+		}
+		input = append(input, '"')
+		for _, x := range v {
+			if x == '"' {
+				input = append(input, '"')
+			}
+			input = append(input, x)
+		}
+		input = append(input, '"')
+	}
+	input = append(input, '\n')
+	var cols []*ColumnDecl
+	for j := 1; j <= nf; j++ {
+		cols = append(cols, &ColumnDecl{Name: "c", Index: zzIntPtr(j)})
+	}
+	decl := &FileDecl{Delimiter: "|", Records: []*RecordDecl{{Name: "r", IsTarget: true, Columns: cols}}}
+	zz.Assume((&validateCtx{}).validateFileDecl(decl) == nil)
+	r := NewReader("t", &zzChunkReader{data: input, failAt: -1}, decl, nil)
+	n, err := r.Read()
+	// a record consisting of one empty quoted field is still a record ("" is not an empty line)
+	zz.Assert(err == nil && n != nil, "a fully quoted row is a record")
+	zz.Cover("record")
+	for j := 0; j < nf; j++ {
+		got, ok := zzColText(n, j)
+		zz.Assert(ok && got == string(vals[j]), "quoted field (embedded delimiters, quotes, newlines) comes back exactly")
+	}
+}
